@@ -367,6 +367,12 @@ def near_miss(draw, kind):
             how = "tilted"
             e = draw(gen.dir_not_parallel(o[2]))
             o2 = ("PL", o[1], X.add(X.mul(draw(st.sampled_from((F(1), F(8), F(64)))), o[2]), e))
+    elif kind == "G" and len(o[1]) >= 4 and draw(st.booleans()):
+        # a polygon on a strict subset of the vertices (shares every vertex it has with o)
+        how = "vertex-removed"
+        pts = list(o[1])
+        del pts[draw(st.integers(0, len(pts) - 1))]
+        o2 = ("G", pts)
     elif kind == "G":
         how = "vertex-changed"
         pts = list(o[1])
@@ -377,6 +383,12 @@ def near_miss(draw, kind):
         mid = X.mul(F(1, 2), X.add(prev_, next_))
         pts[i] = X.add(pts[i], X.mul(step, X.sub(pts[i], mid)))
         o2 = ("G", pts)
+    elif kind == "K" and len(o[1]) >= 5 and draw(st.booleans()):
+        how = "vertex-removed"
+        pts = list(o[1])
+        del pts[draw(st.integers(0, len(pts) - 1))]
+        o2 = X.make_K(pts)
+        assume(o2 is not None and len(o2[1]) == len(pts))
     else:
         how = "translated"
         o2 = X.translate(o, X.mul(step, d))
